@@ -9,7 +9,224 @@ use crate::l0_prim::*;
 use crate::l1_choice::*;
 use crate::l1_limb::*;
 use crate::l2_core::*;
+use vstd::std_specs::bits::*;
+use vstd::bits::*;
+use vstd::arithmetic::mul::*;
 verus! {
+
+
+// ---------------------------------------------------------------- lemmas: limb moves and bit shifts
+/// t = s moved up by d limbs (low d limbs zero): val(t, d + m) == val(s, m) * B^d
+proof fn lemma_shift_up(s: Seq<Limb>, t: Seq<Limb>, d: nat, m: nat)
+    requires forall|j: int| 0 <= j < d ==> t[j].0 == 0, forall|j: int| 0 <= j < m ==> t[j + d] == s[j],
+    ensures val(t, d + m) == val(s, m) * bp(d),
+    decreases m
+{
+    if m > 0 {
+        lemma_shift_up(s, t, d, (m - 1) as nat);
+        lemma_bp_add((m - 1) as nat, d);
+        assert(t[m - 1 + d] == s[m - 1]);
+        let a = s[m - 1].0 as int;
+        assert((val(s, (m - 1) as nat) + a * bp((m - 1) as nat)) * bp(d) == val(s, (m - 1) as nat) * bp(d) + a * (bp((m - 1) as nat) * bp(d))) by (nonlinear_arith);
+        assert((d + m - 1) as nat == ((m - 1) + d) as nat);
+    } else { lemma_val_zero(t, d); assert(0 * bp(d) == 0); }
+}
+
+/// t = s moved down by d limbs: val(s, d + m) == val(s, d) + val(t, m) * B^d
+proof fn lemma_shift_down(s: Seq<Limb>, t: Seq<Limb>, d: nat, m: nat)
+    requires forall|j: int| 0 <= j < m ==> t[j] == s[j + d],
+    ensures val(s, d + m) == val(s, d) + val(t, m) * bp(d),
+    decreases m
+{
+    if m > 0 {
+        lemma_shift_down(s, t, d, (m - 1) as nat);
+        lemma_bp_add((m - 1) as nat, d);
+        assert(t[m - 1] == s[m - 1 + d]);
+        let a = t[m - 1].0 as int;
+        assert((val(t, (m - 1) as nat) + a * bp((m - 1) as nat)) * bp(d) == val(t, (m - 1) as nat) * bp(d) + a * (bp((m - 1) as nat) * bp(d))) by (nonlinear_arith);
+        assert((d + m - 1) as nat == ((m - 1) + d) as nat);
+    } else { assert(0 * bp(d) == 0); }
+}
+
+/// value-level split of a limb shifted left by 0 < s < 64 (low word / spilled high bits)
+proof fn lemma_limb_split(l: u64, s: u32)
+    requires 0 < s < 64
+    ensures
+        (l << s) as int == (l as int * p2(s as nat)) % B(),
+        (l >> ((64 - s) as u32)) as int == l as int / p2((64 - s) as nat),
+        (l as int * p2(s as nat)) % B() + (l as int / p2((64 - s) as nat)) * B() == l as int * p2(s as nat),
+        0 <= l as int / p2((64 - s) as nat) < p2(s as nat),
+        ((l as int * p2(s as nat)) % B()) % p2(s as nat) == 0,
+        p2(s as nat) * p2((64 - s) as nat) == B(), p2(s as nat) > 0, p2((64 - s) as nat) > 0,
+{
+    let r = (64 - s) as u32;
+    lemma_limb_shl_split(l, s);
+    lemma_u64_shl_mod(l, s);
+    lemma_u64_shr_div(l, r);
+    lemma_pow2_64();
+    lemma_pow2_pos(s as nat); lemma_pow2_pos(r as nat);
+    lemma_pow2_adds(s as nat, r as nat);
+    let ps = p2(s as nat); let pr = p2(r as nat);
+    let hi = l as int / pr; let lo = (l as int * ps) % B();
+    assert(ps * pr == B());
+    lemma_fundamental_div_mod(l as int, pr);
+    lemma_mod_bound(l as int, pr);
+    assert(hi < ps) by (nonlinear_arith) requires l as int == pr * hi + (l as int % pr), 0 <= l as int % pr, (l as int) < ps * pr, pr > 0;
+    assert(hi >= 0) by (nonlinear_arith) requires l as int == pr * hi + (l as int % pr), (l as int % pr) < pr, l as int >= 0, pr > 0;
+    assert(lo == (l as int - hi * pr) * ps) by (nonlinear_arith) requires lo + hi * B() == l as int * ps, ps * pr == B();
+    lemma_mod_multiples_basic(l as int - hi * pr, ps);
+}
+
+/// a | b == a + b when a is a multiple of 2^r and b < 2^r
+proof fn lemma_or_add(a: u64, b: u64, r: u32)
+    requires r < 64, (b as int) < p2(r as nat), (a as int) % p2(r as nat) == 0
+    ensures (a | b) as int == a as int + b as int, (b | a) as int == a as int + b as int
+{
+    lemma_one_shl(r as u64);
+    let pr = 1u64 << (r as u64);
+    assert(pr as int == p2(r as nat));
+    assert(a % pr == 0);
+    assert((a | b) == a + b && (b | a) == a + b) by (bit_vector) requires r < 64, pr == 1u64 << (r as u64), b < pr, a % pr == 0;
+}
+
+/// shifting left by 64*sn + rem modulo B^n only depends on the low n - sn limbs
+proof fn lemma_shl_limbs_mod(s: Seq<Limb>, n: nat, sn: nat, rem: nat, shift: nat)
+    requires sn < n, rem < 64, shift == 64 * sn + rem
+    ensures (val(s, n) * p2(shift)) % bp(n) == (val(s, (n - sn) as nat) * bp(sn) * p2(rem)) % bp(n)
+{
+    let m = (n - sn) as nat;
+    lemma_val_mod(s, m, n);
+    lemma_bp_succ(m);
+    lemma_fundamental_div_mod(val(s, n), bp(m));
+    let low = val(s, m); let hq = val(s, n) / bp(m);
+    lemma_bp_pow2(sn); lemma_pow2_adds(64 * sn, rem); lemma_pow2_pos(rem);
+    lemma_bp_add(m, sn); lemma_bp_succ(n);
+    let k = p2(rem);
+    assert((m + sn) as nat == n);
+    assert(val(s, n) * p2(shift) == low * bp(sn) * k + bp(n) * (hq * k)) by (nonlinear_arith)
+        requires val(s, n) == bp(m) * hq + low, p2(shift) == bp(sn) * k, bp(n) == bp(m) * bp(sn);
+    lemma_mod_multiples_vanish(hq * k, low * bp(sn) * k, bp(n));
+}
+
+
+/// dividing by 2^(64*sn + rem) drops the low sn limbs, then divides by 2^rem
+proof fn lemma_shr_limbs_div(v: int, lo: int, hi: int, sn: nat, rem: nat, shift: nat)
+    requires v == lo + hi * bp(sn), 0 <= lo < bp(sn), hi >= 0, shift == 64 * sn + rem
+    ensures v / p2(shift) == hi / p2(rem), rem == 0 ==> v / p2(shift) == hi
+{
+    lemma_bp_pow2(sn); lemma_pow2_adds(64 * sn, rem); lemma_pow2_pos(rem); lemma_bp_succ(sn);
+    assert(bp(sn) * hi == hi * bp(sn)) by (nonlinear_arith);
+    lemma_fundamental_div_mod_converse(v, bp(sn), hi, lo);
+    assert(v >= 0) by (nonlinear_arith) requires v == lo + hi * bp(sn), lo >= 0, hi >= 0, bp(sn) > 0;
+    lemma_div_denominator(v, bp(sn), p2(rem));
+    lemma_pow2_64();
+    if rem == 0 { assert(hi / 1 == hi); }
+}
+
+/// spilled high bits of a limb shifted left by `s` (0 for s == 0)
+pub open spec fn spill(l: u64, s: u32) -> int { if s == 0 { 0 } else { l as int / p2((64 - s) as nat) } }
+
+proof fn lemma_shl_word(x: u64, s: u32)
+    requires s < 64
+    ensures (x << s) as int + spill(x, s) * B() == x as int * p2(s as nat), 0 <= spill(x, s) < p2(s as nat),
+        ((x << s) as int) % p2(s as nat) == 0,
+        s != 0 ==> (x >> ((64 - s) as u32)) as int == spill(x, s),
+{
+    lemma_pow2_64();
+    if s == 0 {
+        assert(x << 0u32 == x) by (bit_vector);
+        assert(x as int * 1 == x as int);
+        assert((x as int) % 1 == 0);
+    } else {
+        lemma_limb_split(x, s);
+    }
+}
+
+/// ((x * 2^a) mod w) * 2^b mod w == x * 2^(a+b) mod w
+proof fn lemma_shl_compose(x: int, a: nat, b: nat, w: int)
+    requires w > 0
+    ensures (((x * p2(a)) % w) * p2(b)) % w == (x * p2(a + b)) % w
+{
+    lemma_pow2_adds(a, b);
+    lemma_mul_mod_noop_left(x * p2(a), p2(b), w);
+    assert((x * p2(a)) * p2(b) == x * (p2(a) * p2(b))) by (nonlinear_arith);
+}
+
+/// (x / 2^a) / 2^b == x / 2^(a+b)
+proof fn lemma_shr_compose(x: int, a: nat, b: nat)
+    requires x >= 0
+    ensures (x / p2(a)) / p2(b) == x / p2(a + b)
+{
+    lemma_pow2_adds(a, b); lemma_pow2_pos(a); lemma_pow2_pos(b);
+    lemma_div_denominator(x, p2(a), p2(b));
+}
+
+proof fn lemma_one_shl32(n: u32)
+    requires n < 32
+    ensures (1u32 << n) as int == p2(n as nat), p2(n as nat) <= 0x8000_0000
+{
+    lemma_u32_pow2_no_overflow(n as nat);
+    lemma_u32_shl_is_mul(1, n);
+    lemma2_to64();
+    if n < 31 { lemma_pow2_strictly_increases(n as nat, 31); }
+}
+
+proof fn lemma_high_zero32(x: u32, n: nat)
+    requires n <= 32, forall|j: u32| n <= j < 32 ==> #[trigger] (x >> j) & 1u32 == 0u32
+    ensures (x as int) < p2(n)
+    decreases 32 - n
+{
+    lemma2_to64();
+    if n < 32 {
+        lemma_high_zero32(x, n + 1);
+        let s = n as u32;
+        assert((x >> s) & 1u32 == 0u32);
+        lemma_one_shl32(s);
+        if n < 31 {
+            lemma_one_shl32((s + 1) as u32);
+            assert(x < (1u32 << ((s + 1) as u32)) && (x >> s) & 1u32 == 0u32 ==> x < (1u32 << s)) by (bit_vector) requires s < 31;
+        } else {
+            assert((x >> 31) & 1u32 == 0u32 ==> x < (1u32 << 31)) by (bit_vector);
+        }
+    }
+}
+
+/// u32 analogue of speclib_bits::lemma_lz64
+pub proof fn lemma_lz32(x: u32)
+    ensures 0 <= u32_leading_zeros(x) <= 32, (u32_leading_zeros(x) == 32) == (x == 0),
+        (x as int) < p2((32 - u32_leading_zeros(x)) as nat),
+        u32_leading_zeros(x) < 32 ==> x as int >= p2((31 - u32_leading_zeros(x)) as nat)
+{
+    axiom_u32_leading_zeros(x);
+    let lz = u32_leading_zeros(x);
+    lemma_high_zero32(x, (32 - lz) as nat);
+    if lz < 32 {
+        let s = (31 - lz) as u32;
+        lemma_one_shl32(s);
+        assert((x >> s) & 1u32 != 0u32 ==> x >= (1u32 << s)) by (bit_vector) requires s < 32;
+    }
+}
+
+/// one rung of the constant-time shift ladder: bit i of s extends s mod 2^i to s mod 2^(i+1)
+proof fn lemma_ladder_step(s: u32, i: u32)
+    requires i < 32
+    ensures ((s >> i) & 1u32) <= 1, (1u32 << i) as int == p2(i as nat),
+        (s as int) % p2((i + 1) as nat) == (s as int) % p2(i as nat) + ((s >> i) & 1u32) as int * p2(i as nat),
+{
+    lemma_one_shl32(i);
+    lemma_u32_shr_is_div(s, i);
+    let q = s >> i; let b = q & 1u32;
+    assert(b <= 1 && b == q % 2) by (bit_vector) requires b == q & 1u32;
+    let pi = p2(i as nat);
+    lemma_pow2_pos(i as nat);
+    lemma_pow2_adds(i as nat, 1); lemma2_to64();
+    lemma_fundamental_div_mod(s as int, pi); lemma_mod_bound(s as int, pi);
+    let r = s as int % pi; let q2 = q as int / 2;
+    assert(s as int == (2 * pi) * q2 + (b as int * pi + r)) by (nonlinear_arith) requires s as int == pi * (q as int) + r, q as int == 2 * q2 + b as int;
+    assert(b as int * pi + r < 2 * pi) by (nonlinear_arith) requires b <= 1, 0 <= r < pi;
+    assert(b as int * pi >= 0) by (nonlinear_arith) requires b >= 0, pi > 0;
+    lemma_fundamental_div_mod_converse(s as int, 2 * pi, q2, b as int * pi + r);
+}
 
 //@@ subst \b(Self|Uint)::(ZERO|ONE|MAX|BITS|LOG2_BITS)\b(?!\() => \1::\2()
 //@@ subst \bUint::<(\w+)>::(ZERO|ONE|MAX|BITS)\b(?!\() => Uint::<\1>::\2()
@@ -104,212 +321,641 @@ pub const fn bit_vartime(&self, index: u32) -> (ret__: bool)
 }
 }
 //@@ end
-//@@ fn src/uint/shl.rs | impl<const LIMBS: usize> Uint<LIMBS> | shl | stub | props C05 C11
+//@@ fn src/uint/bits.rs | impl<const LIMBS: usize> Uint<LIMBS> | set_bit | stub | props C05 C11
 impl<const LIMBS: usize> Uint<LIMBS> {
 #[verifier::external_body]
+pub const fn set_bit(self, index: u32, bit_value: ConstChoice) -> (ret__: Self)
+//@+
+    requires 1 <= LIMBS < 0x400_0000, bit_value.wf()
+    ensures (index as int) < 64 * LIMBS ==> ret__.v() == self.v() - ((self.v() / p2(index as nat)) % 2) * p2(index as nat) + (if bit_value.t() { 1int } else { 0int }) * p2(index as nat),
+        (index as int) >= 64 * LIMBS ==> ret__.v() == self.v()
+//@-
+{
+    unimplemented!()
+}
+}
+//@@ end
+//@@ fn src/uint/bits.rs | impl<const LIMBS: usize> Uint<LIMBS> | set_bit_vartime | stub | props C05 C11 C15
+impl<const LIMBS: usize> Uint<LIMBS> {
+#[verifier::external_body]
+pub const fn set_bit_vartime(self, index: u32, bit_value: bool) -> (ret__: Self)
+//@+
+    requires 1 <= LIMBS < 0x400_0000, (index as int) < 64 * LIMBS
+    ensures ret__.v() == self.v() - ((self.v() / p2(index as nat)) % 2) * p2(index as nat) + (if bit_value { 1int } else { 0int }) * p2(index as nat)
+//@-
+{
+    unimplemented!()
+}
+}
+//@@ end
+//@@ fn src/uint/shl.rs | impl<const LIMBS: usize> Uint<LIMBS> | shl | body | props C05 C11
+impl<const LIMBS: usize> Uint<LIMBS> {
 pub const fn shl(&self, shift: u32) -> (ret__: Self)
 //@+
     requires 1 <= LIMBS < 0x400_0000, (shift as int) < 64 * LIMBS
     ensures ret__.v() == (self.v() * p2(shift as nat)) % bp(LIMBS as nat)
 //@-
 {
-    unimplemented!()
-}
+        self.overflowing_shl(shift)
+            .expect("`shift` within the bit size of the integer")
+    }
 }
 //@@ end
-//@@ fn src/uint/shl.rs | impl<const LIMBS: usize> Uint<LIMBS> | shl_vartime | stub | props C05 C11 C15
+//@@ fn src/uint/shl.rs | impl<const LIMBS: usize> Uint<LIMBS> | shl_vartime | body | props C05 C11 C15
 impl<const LIMBS: usize> Uint<LIMBS> {
-#[verifier::external_body]
 pub const fn shl_vartime(&self, shift: u32) -> (ret__: Self)
 //@+
     requires 1 <= LIMBS < 0x400_0000, (shift as int) < 64 * LIMBS
     ensures ret__.v() == (self.v() * p2(shift as nat)) % bp(LIMBS as nat)
 //@-
 {
-    unimplemented!()
-}
+        self.overflowing_shl_vartime(shift)
+            .expect("`shift` within the bit size of the integer")
+    }
 }
 //@@ end
-//@@ fn src/uint/shl.rs | impl<const LIMBS: usize> Uint<LIMBS> | overflowing_shl | stub | props C05 C11
+//@@ fn src/uint/shl.rs | impl<const LIMBS: usize> Uint<LIMBS> | overflowing_shl | body | props C05 C11
 impl<const LIMBS: usize> Uint<LIMBS> {
-#[verifier::external_body]
 pub const fn overflowing_shl(&self, shift: u32) -> (ret__: ConstCtOption<Self>)
 //@+
     requires 1 <= LIMBS < 0x400_0000
     ensures ret__.is_some.wf(), ret__.is_some.t() == ((shift as int) < 64 * LIMBS), ret__.is_some.t() ==> ret__.value.v() == (self.v() * p2(shift as nat)) % bp(LIMBS as nat), !ret__.is_some.t() ==> ret__.value.v() == 0
 //@-
 {
-    unimplemented!()
-}
+//@+
+    proof { lemma_lz32((64 * LIMBS - 1) as u32); }
+//@-
+        // `floor(log2(BITS - 1))` is the number of bits in the representation of `shift`
+        // (which lies in range `0 <= shift < BITS`).
+        let shift_bits = u32::BITS - (Self::BITS() - 1).leading_zeros();
+        let overflow = ConstChoice::from_u32_lt(shift, Self::BITS()).not();
+//@+
+    let ghost shift0 = shift;
+//@-
+        let shift = shift % Self::BITS();
+        let mut result = *self;
+        let mut i = 0;
+//@+
+    proof {
+        lemma_pow2_64(); lemma_bp_succ(LIMBS as nat); lemma_val_bound(self.limbs@, LIMBS as nat);
+        assert((shift as int) % 1 == 0);
+        lemma_small_mod(self.v() as nat, bp(LIMBS as nat) as nat); assert(self.v() * 1 == self.v());
+        if (shift0 as int) < 64 * LIMBS { lemma_small_mod(shift0 as nat, (64 * LIMBS) as nat); }
+        lemma_mod_bound(shift0 as int, 64 * LIMBS);
+    }
+//@-
+        while i < shift_bits
+//@+
+    invariant i <= shift_bits, 1 <= shift_bits <= 32, 1 <= LIMBS < 0x400_0000, (shift as int) < 64 * LIMBS,
+        p2((shift_bits - 1) as nat) <= 64 * LIMBS - 1,
+        result.v() == (self.v() * p2(((shift as int) % p2(i as nat)) as nat)) % bp(LIMBS as nat),
+    decreases shift_bits - i,
+//@-
+{
+//@+
+    let ghost r0 = result;
+    let ghost lo = (shift as int) % p2(i as nat);
+    proof {
+        lemma_ladder_step(shift, i);
+        if i < shift_bits - 1 { lemma_pow2_strictly_increases(i as nat, (shift_bits - 1) as nat); }
+        lemma_pow2_pos(i as nat); lemma_mod_bound(shift as int, p2(i as nat));
+        lemma_bp_succ(LIMBS as nat); lemma_val_bound(self.limbs@, LIMBS as nat);
+        lemma_shl_compose(self.v(), lo as nat, p2(i as nat) as nat, bp(LIMBS as nat));
+    }
+//@-
+            let bit = ConstChoice::from_u32_lsb((shift >> i) & 1);
+            result = Uint::select(
+                &result,
+                &result
+                    .overflowing_shl_vartime(1 << i)
+                    .expect("shift within range"),
+                bit,
+            );
+            i += 1;
+        }
+//@+
+    proof {
+        assert((shift as int) < p2(shift_bits as nat));
+        lemma_small_mod(shift as nat, p2(shift_bits as nat) as nat);
+    }
+//@-
+        ConstCtOption::new(Uint::select(&result, &Self::ZERO(), overflow), overflow.not())
+    }
 }
 //@@ end
-//@@ fn src/uint/shl.rs | impl<const LIMBS: usize> Uint<LIMBS> | overflowing_shl_vartime | stub | props C05 C11 C15
+//@@ fn src/uint/shl.rs | impl<const LIMBS: usize> Uint<LIMBS> | overflowing_shl_vartime | body | props C05 C11 C15
 impl<const LIMBS: usize> Uint<LIMBS> {
-#[verifier::external_body]
 pub const fn overflowing_shl_vartime(&self, shift: u32) -> (ret__: ConstCtOption<Self>)
 //@+
     requires 1 <= LIMBS < 0x400_0000
     ensures ret__.is_some.wf(), ret__.is_some.t() == ((shift as int) < 64 * LIMBS), ret__.is_some.t() ==> ret__.value.v() == (self.v() * p2(shift as nat)) % bp(LIMBS as nat), !ret__.is_some.t() ==> ret__.value.v() == 0
 //@-
 {
-    unimplemented!()
-}
+        let mut limbs = [Limb::ZERO; LIMBS];
+        if shift >= Self::BITS() {
+            return ConstCtOption::none(Self::ZERO());
+        }
+        let shift_num = (shift / Limb::BITS) as usize;
+        let rem = shift % Limb::BITS;
+        let mut i = shift_num;
+        while i < LIMBS
+//@+
+    invariant shift_num <= i <= LIMBS, shift_num < LIMBS,
+        forall|j: int| 0 <= j < shift_num ==> limbs@[j].0 == 0,
+        forall|j: int| shift_num <= j < i ==> limbs@[j] == self.limbs@[j - shift_num],
+        forall|j: int| i <= j < LIMBS ==> limbs@[j].0 == 0,
+    decreases LIMBS - i,
+//@-
+{
+            limbs[i] = self.limbs[i - shift_num];
+            i += 1;
+        }
+//@+
+    let ghost p1 = limbs@;
+    let ghost sn = shift_num as nat; let ghost m = (LIMBS - shift_num) as nat;
+    let ghost lowv = val(self.limbs@, m);       // the part of self that survives
+    proof {
+        lemma_shift_up(self.limbs@, p1, sn, m);
+        assert((sn + m) as nat == LIMBS as nat);
+        assert(val(p1, LIMBS as nat) == lowv * bp(sn));
+        if rem == 0 {
+            lemma_shl_limbs_mod(self.limbs@, LIMBS as nat, sn, 0, shift as nat);
+            lemma_pow2_64();
+            assert(lowv * bp(sn) * 1 == lowv * bp(sn)) by (nonlinear_arith);
+            lemma_val_bound(p1, LIMBS as nat);
+            lemma_small_mod((lowv * bp(sn)) as nat, bp(LIMBS as nat) as nat);
+        }
+    }
+//@-
+        if rem == 0 {
+            return ConstCtOption::some(Self { limbs });
+        }
+        let mut carry = Limb::ZERO;
+        let mut i = shift_num;
+//@+
+    proof { lemma_bp_succ(sn); lemma_pow2_pos(rem as nat); assert(0 * p2(rem as nat) == 0); assert(0 * bp(sn) == 0); lemma_val_zero(p1, sn); }
+//@-
+        while i < LIMBS
+//@+
+    invariant shift_num <= i <= LIMBS, shift_num < LIMBS, 0 < rem < 64, sn == shift_num, p1.len() == LIMBS,
+        forall|j: int| i <= j < LIMBS ==> limbs@[j] == p1[j],
+        (carry.0 as int) < p2(rem as nat),
+        val(limbs@, i as nat) + carry.0 as int * bp(i as nat) == val(p1, i as nat) * p2(rem as nat),
+    decreases LIMBS - i,
+//@-
+{
+//@+
+    let ghost lb = limbs@; let ghost cb = carry;
+//@-
+            let shifted = limbs[i].shl(rem);
+            let new_carry = limbs[i].shr(Limb::BITS - rem);
+            limbs[i] = shifted.bitor(carry);
+            carry = new_carry;
+//@+
+    proof {
+        let l = p1[i as int].0; let ps = p2(rem as nat);
+        lemma_limb_split(l, rem);
+        lemma_val_ext(lb, limbs@, i as nat);
+        lemma_bp_succ(i as nat);
+        let sh = shifted.0; let c = cb.0;
+        lemma_or_add(sh, c, rem);
+        let pk = bp(i as nat); let nw = limbs@[i as int].0 as int; let nc = carry.0 as int;
+        assert(nw == sh as int + c as int);
+        assert(sh as int + nc * B() == l as int * ps);
+        assert(nw * pk + nc * (B() * pk) == (l as int * ps) * pk + c as int * pk) by (nonlinear_arith) requires nw == sh as int + c as int, sh as int + nc * B() == l as int * ps;
+        assert((val(p1, i as nat) + l as int * pk) * ps == val(p1, i as nat) * ps + (l as int * ps) * pk) by (nonlinear_arith);
+    }
+//@-
+            i += 1;
+        }
+//@+
+    proof {
+        lemma_val_bound(limbs@, LIMBS as nat);
+        let ps = p2(rem as nat); let c = carry.0 as int; let ww = bp(LIMBS as nat);
+        let res = val(limbs@, LIMBS as nat);
+        assert(ww * c == c * ww) by (nonlinear_arith);
+        lemma_fundamental_div_mod_converse(lowv * bp(sn) * ps, ww, c, res);
+        lemma_shl_limbs_mod(self.limbs@, LIMBS as nat, sn, rem as nat, shift as nat);
+    }
+//@-
+        ConstCtOption::some(Self { limbs })
+    }
 }
 //@@ end
-//@@ fn src/uint/shl.rs | impl<const LIMBS: usize> Uint<LIMBS> | wrapping_shl | stub | props C05 C11
+//@@ fn src/uint/shl.rs | impl<const LIMBS: usize> Uint<LIMBS> | wrapping_shl | body | props C05 C11
 impl<const LIMBS: usize> Uint<LIMBS> {
-#[verifier::external_body]
 pub const fn wrapping_shl(&self, shift: u32) -> (ret__: Self)
 //@+
     requires 1 <= LIMBS < 0x400_0000
     ensures ret__.v() == (if (shift as int) < 64 * LIMBS { (self.v() * p2(shift as nat)) % bp(LIMBS as nat) } else { 0 })
 //@-
 {
-    unimplemented!()
-}
+        self.overflowing_shl(shift).unwrap_or(Self::ZERO())
+    }
 }
 //@@ end
-//@@ fn src/uint/shl.rs | impl<const LIMBS: usize> Uint<LIMBS> | wrapping_shl_vartime | stub | props C05 C11 C15
+//@@ fn src/uint/shl.rs | impl<const LIMBS: usize> Uint<LIMBS> | wrapping_shl_vartime | body | props C05 C11 C15
 impl<const LIMBS: usize> Uint<LIMBS> {
-#[verifier::external_body]
 pub const fn wrapping_shl_vartime(&self, shift: u32) -> (ret__: Self)
 //@+
     requires 1 <= LIMBS < 0x400_0000
     ensures ret__.v() == (if (shift as int) < 64 * LIMBS { (self.v() * p2(shift as nat)) % bp(LIMBS as nat) } else { 0 })
 //@-
 {
-    unimplemented!()
-}
+        self.overflowing_shl_vartime(shift).unwrap_or(Self::ZERO())
+    }
 }
 //@@ end
-//@@ fn src/uint/shl.rs | impl<const LIMBS: usize> Uint<LIMBS> | shl_limb | stub | props C05 C02 C11
+//@@ fn src/uint/shl.rs | impl<const LIMBS: usize> Uint<LIMBS> | shl_limb | body | props C05 C02 C11
 impl<const LIMBS: usize> Uint<LIMBS> {
-#[verifier::external_body]
 pub const fn shl_limb(&self, shift: u32) -> (ret__: (Self, Limb))
 //@+
     requires LIMBS >= 1, shift < 64
-    ensures ret__.0.v() + ret__.1.0 as int * bp(LIMBS as nat) == self.v() * p2(shift as nat)
+    ensures ret__.0.v() + ret__.1.0 as int * bp(LIMBS as nat) == self.v() * p2(shift as nat), (ret__.1.0 as int) < p2(shift as nat)
 //@-
 {
-    unimplemented!()
-}
+        let mut limbs = [Limb::ZERO; LIMBS];
+        let nz = ConstChoice::from_u32_nonzero(shift);
+        let lshift = shift;
+        let rshift = nz.if_true_u32(Limb::BITS - shift);
+        let carry = nz.if_true_word(self.limbs[LIMBS - 1].0.wrapping_shr(Word::BITS - shift));
+        limbs[0] = Limb(self.limbs[0].0 << lshift);
+//@+
+    proof {
+        let x0 = self.limbs@[0].0;
+        lemma_shl_word(x0, shift); lemma_bp1();
+        assert(val(limbs@, 1) == val(limbs@, 0) + limbs@[0].0 as int * bp(0));
+        assert(val(self.limbs@, 1) == val(self.limbs@, 0) + x0 as int * bp(0));
+        assert(limbs@[0].0 == x0 << shift);
+        assert(val(limbs@, 1) == (x0 << shift) as int);
+        assert(val(self.limbs@, 1) == x0 as int);
+    }
+//@-
+        let mut i = 1;
+        while i < LIMBS
+//@+
+    invariant 1 <= i <= LIMBS, shift < 64, lshift == shift, nz.wf(), nz.t() == (shift != 0), rshift == (if shift != 0 { (64 - shift) as u32 } else { 0u32 }),
+        val(limbs@, i as nat) + spill(self.limbs@[i - 1].0, shift) * bp(i as nat) == val(self.limbs@, i as nat) * p2(shift as nat),
+    decreases LIMBS - i,
+//@-
+{
+//@+
+    let ghost lb = limbs@;
+//@-
+            let mut limb = self.limbs[i].0 << lshift;
+            let hi = self.limbs[i - 1].0 >> rshift;
+//@+
+    let ghost limb0 = limb;
+//@-
+            limb |= nz.if_true_word(hi);
+            limbs[i] = Limb(limb);
+//@+
+    proof {
+        let x = self.limbs@[i as int].0; let y = self.limbs@[i - 1].0; let ps = p2(shift as nat);
+        lemma_shl_word(x, shift); lemma_shl_word(y, shift);
+        let msk: u64 = if shift != 0 { hi } else { 0 };
+        assert(msk as int == spill(y, shift));
+        lemma_or_add(limb0, msk, shift);
+        lemma_val_ext(lb, limbs@, i as nat);
+        lemma_bp_succ(i as nat);
+        let pk = bp(i as nat); let nw = limb as int; let lo = limb0 as int; let sy = spill(y, shift); let sx = spill(x, shift);
+        assert(nw == lo + sy);
+        assert(nw * pk + sx * (B() * pk) == (x as int * ps) * pk + sy * pk) by (nonlinear_arith) requires nw == lo + sy, lo + sx * B() == x as int * ps;
+        assert((val(self.limbs@, i as nat) + x as int * pk) * ps == val(self.limbs@, i as nat) * ps + (x as int * ps) * pk) by (nonlinear_arith);
+    }
+//@-
+            i += 1
+        }
+//@+
+    proof { lemma_shl_word(self.limbs@[LIMBS - 1].0, shift); }
+//@-
+        (Uint::<LIMBS>::new(limbs), Limb(carry))
+    }
 }
 //@@ end
-//@@ fn src/uint/shl.rs | impl<const LIMBS: usize> Uint<LIMBS> | overflowing_shl1 | stub | props C05 C11
+//@@ fn src/uint/shl.rs | impl<const LIMBS: usize> Uint<LIMBS> | overflowing_shl1 | body | props C05 C11
 impl<const LIMBS: usize> Uint<LIMBS> {
-#[verifier::external_body]
 pub const fn overflowing_shl1(&self) -> (ret__: (Self, Limb))
 //@+
     requires LIMBS >= 1
     ensures ret__.0.v() + ret__.1.0 as int * bp(LIMBS as nat) == 2 * self.v(), ret__.1.0 <= 1
 //@-
 {
-    unimplemented!()
-}
+        let mut ret = Self::ZERO();
+        let mut i = 0;
+        let mut carry = Limb::ZERO;
+//@+
+    proof { lemma_bp1(); }
+//@-
+        while i < LIMBS
+//@+
+    invariant i <= LIMBS, carry.0 <= 1,
+        val(ret.limbs@, i as nat) + carry.0 as int * bp(i as nat) == 2 * val(self.limbs@, i as nat),
+    decreases LIMBS - i,
+//@-
+{
+//@+
+    let ghost rb = ret.limbs@; let ghost cb = carry;
+//@-
+            let (shifted, new_carry) = self.limbs[i].shl1();
+            ret.limbs[i] = shifted.bitor(carry);
+            carry = new_carry;
+//@+
+    proof {
+        let sh = shifted.0; let c = cb.0; let l = self.limbs@[i as int].0 as int; let nc = carry.0 as int;
+        assert(sh as int == 2 * l - nc * 0x1_0000_0000_0000_0000);
+        assert(sh % 2 == 0);
+        assert((sh | c) == sh + c) by (bit_vector) requires sh % 2 == 0, c <= 1;
+        lemma_val_ext(rb, ret.limbs@, i as nat);
+        lemma_bp_succ(i as nat);
+        let pk = bp(i as nat); let nw = ret.limbs@[i as int].0 as int;
+        assert(nw * pk + nc * (B() * pk) == 2 * (l * pk) + c as int * pk) by (nonlinear_arith) requires nw == sh as int + c as int, sh as int + nc * B() == 2 * l;
+    }
+//@-
+            i += 1;
+        }
+        (ret, carry)
+    }
 }
 //@@ end
-//@@ fn src/uint/shr.rs | impl<const LIMBS: usize> Uint<LIMBS> | shr | stub | props C05 C11
+//@@ fn src/uint/shr.rs | impl<const LIMBS: usize> Uint<LIMBS> | shr | body | props C05 C11
 impl<const LIMBS: usize> Uint<LIMBS> {
-#[verifier::external_body]
 pub const fn shr(&self, shift: u32) -> (ret__: Self)
 //@+
     requires 1 <= LIMBS < 0x400_0000, (shift as int) < 64 * LIMBS
     ensures ret__.v() == self.v() / p2(shift as nat)
 //@-
 {
-    unimplemented!()
-}
+        self.overflowing_shr(shift)
+            .expect("`shift` within the bit size of the integer")
+    }
 }
 //@@ end
-//@@ fn src/uint/shr.rs | impl<const LIMBS: usize> Uint<LIMBS> | shr_vartime | stub | props C05 C11 C15
+//@@ fn src/uint/shr.rs | impl<const LIMBS: usize> Uint<LIMBS> | shr_vartime | body | props C05 C11 C15
 impl<const LIMBS: usize> Uint<LIMBS> {
-#[verifier::external_body]
 pub const fn shr_vartime(&self, shift: u32) -> (ret__: Self)
 //@+
     requires 1 <= LIMBS < 0x400_0000, (shift as int) < 64 * LIMBS
     ensures ret__.v() == self.v() / p2(shift as nat)
 //@-
 {
-    unimplemented!()
-}
+        self.overflowing_shr_vartime(shift)
+            .expect("`shift` within the bit size of the integer")
+    }
 }
 //@@ end
-//@@ fn src/uint/shr.rs | impl<const LIMBS: usize> Uint<LIMBS> | overflowing_shr | stub | props C05 C11
+//@@ fn src/uint/shr.rs | impl<const LIMBS: usize> Uint<LIMBS> | overflowing_shr | body | props C05 C11
 impl<const LIMBS: usize> Uint<LIMBS> {
-#[verifier::external_body]
 pub const fn overflowing_shr(&self, shift: u32) -> (ret__: ConstCtOption<Self>)
 //@+
     requires 1 <= LIMBS < 0x400_0000
     ensures ret__.is_some.wf(), ret__.is_some.t() == ((shift as int) < 64 * LIMBS), ret__.is_some.t() ==> ret__.value.v() == self.v() / p2(shift as nat), !ret__.is_some.t() ==> ret__.value.v() == 0
 //@-
 {
-    unimplemented!()
-}
+//@+
+    proof { lemma_lz32((64 * LIMBS - 1) as u32); }
+//@-
+        // `floor(log2(BITS - 1))` is the number of bits in the representation of `shift`
+        // (which lies in range `0 <= shift < BITS`).
+        let shift_bits = u32::BITS - (Self::BITS() - 1).leading_zeros();
+        let overflow = ConstChoice::from_u32_lt(shift, Self::BITS()).not();
+//@+
+    let ghost shift0 = shift;
+//@-
+        let shift = shift % Self::BITS();
+        let mut result = *self;
+        let mut i = 0;
+//@+
+    proof {
+        lemma_pow2_64(); lemma_bp_succ(LIMBS as nat); lemma_val_bound(self.limbs@, LIMBS as nat);
+        assert((shift as int) % 1 == 0);
+        assert(self.v() / 1 == self.v());
+        if (shift0 as int) < 64 * LIMBS { lemma_small_mod(shift0 as nat, (64 * LIMBS) as nat); }
+        lemma_mod_bound(shift0 as int, 64 * LIMBS);
+    }
+//@-
+        while i < shift_bits
+//@+
+    invariant i <= shift_bits, 1 <= shift_bits <= 32, 1 <= LIMBS < 0x400_0000, (shift as int) < 64 * LIMBS,
+        p2((shift_bits - 1) as nat) <= 64 * LIMBS - 1,
+        result.v() == self.v() / p2(((shift as int) % p2(i as nat)) as nat),
+    decreases shift_bits - i,
+//@-
+{
+//@+
+    let ghost r0 = result;
+    let ghost lo = (shift as int) % p2(i as nat);
+    proof {
+        lemma_ladder_step(shift, i);
+        if i < shift_bits - 1 { lemma_pow2_strictly_increases(i as nat, (shift_bits - 1) as nat); }
+        lemma_pow2_pos(i as nat); lemma_mod_bound(shift as int, p2(i as nat));
+        lemma_bp_succ(LIMBS as nat); lemma_val_bound(self.limbs@, LIMBS as nat);
+        lemma_shr_compose(self.v(), lo as nat, p2(i as nat) as nat);
+    }
+//@-
+            let bit = ConstChoice::from_u32_lsb((shift >> i) & 1);
+            result = Uint::select(
+                &result,
+                &result
+                    .overflowing_shr_vartime(1 << i)
+                    .expect("shift within range"),
+                bit,
+            );
+            i += 1;
+        }
+//@+
+    proof {
+        assert((shift as int) < p2(shift_bits as nat));
+        lemma_small_mod(shift as nat, p2(shift_bits as nat) as nat);
+    }
+//@-
+        ConstCtOption::new(Uint::select(&result, &Self::ZERO(), overflow), overflow.not())
+    }
 }
 //@@ end
-//@@ fn src/uint/shr.rs | impl<const LIMBS: usize> Uint<LIMBS> | overflowing_shr_vartime | stub | props C05 C11 C15
+//@@ fn src/uint/shr.rs | impl<const LIMBS: usize> Uint<LIMBS> | overflowing_shr_vartime | body | props C05 C11 C15
 impl<const LIMBS: usize> Uint<LIMBS> {
-#[verifier::external_body]
 pub const fn overflowing_shr_vartime(&self, shift: u32) -> (ret__: ConstCtOption<Self>)
 //@+
     requires 1 <= LIMBS < 0x400_0000
     ensures ret__.is_some.wf(), ret__.is_some.t() == ((shift as int) < 64 * LIMBS), ret__.is_some.t() ==> ret__.value.v() == self.v() / p2(shift as nat), !ret__.is_some.t() ==> ret__.value.v() == 0
 //@-
 {
-    unimplemented!()
-}
+        let mut limbs = [Limb::ZERO; LIMBS];
+        if shift >= Self::BITS() {
+            return ConstCtOption::none(Self::ZERO());
+        }
+        let shift_num = (shift / Limb::BITS) as usize;
+        let rem = shift % Limb::BITS;
+        let mut i = 0;
+        while i < LIMBS - shift_num
+//@+
+    invariant shift_num < LIMBS, i <= LIMBS - shift_num,
+        forall|j: int| 0 <= j < i ==> limbs@[j] == self.limbs@[j + shift_num],
+        forall|j: int| i <= j < LIMBS ==> limbs@[j].0 == 0,
+    decreases LIMBS - shift_num - i,
+//@-
+{
+            limbs[i] = self.limbs[i + shift_num];
+            i += 1;
+        }
+//@+
+    let ghost p1 = limbs@;
+    let ghost sn = shift_num as nat; let ghost m = (LIMBS - shift_num) as nat;
+    let ghost hiv = val(p1, m);       // the part of self that survives
+    let ghost mut clo: int = 0;
+    proof {
+        lemma_shift_down(self.limbs@, p1, sn, m);
+        assert((sn + m) as nat == LIMBS as nat);
+        lemma_val_hi_zero(p1, m, LIMBS as nat);
+        lemma_val_bound(self.limbs@, sn); lemma_val_bound(p1, m);
+        lemma_shr_limbs_div(self.v(), val(self.limbs@, sn), hiv, sn, rem as nat, shift as nat);
+        lemma_pow2_64();
+        lemma_bp_succ(m);
+        assert(0 * p2(rem as nat) == 0); assert(0 * bp(m) == 0); assert(0 * p2((64 - rem) as nat) == 0);
+        lemma_pow2_pos(rem as nat);
+    }
+//@-
+        if rem == 0 {
+            return ConstCtOption::some(Self { limbs });
+        }
+        let mut carry = Limb::ZERO;
+        while i > 0
+//@+
+    invariant i <= m, m == LIMBS - shift_num, shift_num < LIMBS, 0 < rem < 64, p1.len() == LIMBS,
+        forall|j: int| 0 <= j < i ==> limbs@[j] == p1[j],
+        forall|j: int| m <= j < LIMBS ==> limbs@[j].0 == 0,
+        carry.0 as int == clo * p2((64 - rem) as nat), 0 <= clo < p2(rem as nat),
+        tv(limbs@, i as nat, m) * p2(rem as nat) + clo * bp(i as nat) == tv(p1, i as nat, m),
+    decreases i,
+//@-
+{
+            i -= 1;
+//@+
+    let ghost lb = limbs@; let ghost cb = carry; let ghost clo0 = clo;
+//@-
+            let shifted = limbs[i].shr(rem);
+            let new_carry = limbs[i].shl(Limb::BITS - rem);
+            limbs[i] = shifted.bitor(carry);
+            carry = new_carry;
+//@+
+    proof {
+        let l = p1[i as int].0; let pr = p2(rem as nat); let s2 = (64 - rem) as u32; let ps = p2(s2 as nat);
+        lemma_limb_split(l, s2);
+        assert((64 - s2) as nat == rem as nat);
+        let sh = shifted.0 as int; let nc = carry.0 as int; let c = cb.0 as int;
+        clo = l as int % pr;
+        lemma_fundamental_div_mod(l as int, pr); lemma_mod_bound(l as int, pr);
+        assert(nc == clo * ps) by (nonlinear_arith) requires nc + sh * B() == l as int * ps, l as int == pr * sh + clo, ps * pr == B();
+        lemma_mod_multiples_basic(clo0, ps);
+        lemma_or_add(cb.0, shifted.0, s2);
+        let nw = limbs@[i as int].0 as int; let pk = bp(i as nat);
+        assert(nw == sh + c);
+        lemma_bp_succ(i as nat);
+        lemma_tv_ext(lb, limbs@, (i + 1) as nat, m);
+        lemma_val_step(limbs@, i as nat); lemma_val_step(p1, i as nat);
+        assert((tv(lb, (i + 1) as nat, m) + nw * pk) * pr + clo * pk == tv(p1, (i + 1) as nat, m) + l as int * pk) by (nonlinear_arith)
+            requires tv(lb, (i + 1) as nat, m) * pr + clo0 * (B() * pk) == tv(p1, (i + 1) as nat, m), nw == sh + c, c == clo0 * ps, ps * pr == B(), l as int == pr * sh + clo;
+    }
+//@-
+        }
+//@+
+    proof {
+        lemma_val_hi_zero(limbs@, m, LIMBS as nat);
+        lemma_fundamental_div_mod_converse(hiv, p2(rem as nat), val(limbs@, m), clo);
+    }
+//@-
+        ConstCtOption::some(Self { limbs })
+    }
 }
 //@@ end
-//@@ fn src/uint/shr.rs | impl<const LIMBS: usize> Uint<LIMBS> | wrapping_shr | stub | props C05 C11
+//@@ fn src/uint/shr.rs | impl<const LIMBS: usize> Uint<LIMBS> | wrapping_shr | body | props C05 C11
 impl<const LIMBS: usize> Uint<LIMBS> {
-#[verifier::external_body]
 pub const fn wrapping_shr(&self, shift: u32) -> (ret__: Self)
 //@+
     requires 1 <= LIMBS < 0x400_0000
     ensures ret__.v() == (if (shift as int) < 64 * LIMBS { self.v() / p2(shift as nat) } else { 0 })
 //@-
 {
-    unimplemented!()
-}
+        self.overflowing_shr(shift).unwrap_or(Self::ZERO())
+    }
 }
 //@@ end
-//@@ fn src/uint/shr.rs | impl<const LIMBS: usize> Uint<LIMBS> | wrapping_shr_vartime | stub | props C05 C11 C15
+//@@ fn src/uint/shr.rs | impl<const LIMBS: usize> Uint<LIMBS> | wrapping_shr_vartime | body | props C05 C11 C15
 impl<const LIMBS: usize> Uint<LIMBS> {
-#[verifier::external_body]
 pub const fn wrapping_shr_vartime(&self, shift: u32) -> (ret__: Self)
 //@+
     requires 1 <= LIMBS < 0x400_0000
     ensures ret__.v() == (if (shift as int) < 64 * LIMBS { self.v() / p2(shift as nat) } else { 0 })
 //@-
 {
-    unimplemented!()
-}
+        self.overflowing_shr_vartime(shift).unwrap_or(Self::ZERO())
+    }
 }
 //@@ end
-//@@ fn src/uint/shr.rs | impl<const LIMBS: usize> Uint<LIMBS> | shr1 | stub | props C05 C11
+//@@ fn src/uint/shr.rs | impl<const LIMBS: usize> Uint<LIMBS> | shr1 | body | props C05 C11
 impl<const LIMBS: usize> Uint<LIMBS> {
-#[verifier::external_body]
 pub const fn shr1(&self) -> (ret__: Self)
 //@+
     requires LIMBS >= 1
     ensures ret__.v() == self.v() / 2
 //@-
 {
-    unimplemented!()
-}
+        self.shr1_with_carry().0
+    }
 }
 //@@ end
-//@@ fn src/uint/shr.rs | impl<const LIMBS: usize> Uint<LIMBS> | shr1_with_carry | stub | props C05 C11
+//@@ fn src/uint/shr.rs | impl<const LIMBS: usize> Uint<LIMBS> | shr1_with_carry | body | props C05 C11
 impl<const LIMBS: usize> Uint<LIMBS> {
-#[verifier::external_body]
 pub const fn shr1_with_carry(&self) -> (ret__: (Self, ConstChoice))
 //@+
     requires LIMBS >= 1
     ensures ret__.0.v() == self.v() / 2, ret__.1.wf(), ret__.1.t() == (self.v() % 2 == 1)
 //@-
 {
-    unimplemented!()
-}
+        let mut ret = Self::ZERO();
+        let mut i = LIMBS;
+        let mut carry = Limb::ZERO;
+//@+
+    proof { assert(0u64 >> 63 == 0) by (bit_vector); assert(0 * bp(LIMBS as nat) == 0); }
+//@-
+        while i > 0
+//@+
+    invariant i <= LIMBS, carry.0 == 0 || carry.0 == 0x8000_0000_0000_0000u64,
+        2 * tv(ret.limbs@, i as nat, LIMBS as nat) + (carry.0 >> 63) as int * bp(i as nat) == tv(self.limbs@, i as nat, LIMBS as nat),
+    decreases i,
+//@-
+{
+            i -= 1;
+//@+
+    let ghost rb = ret.limbs@; let ghost cb = carry;
+//@-
+            let (shifted, new_carry) = self.limbs[i].shr1();
+            ret.limbs[i] = shifted.bitor(carry);
+            carry = new_carry;
+//@+
+    proof {
+        let sh = shifted.0; let c = cb.0; let l = self.limbs@[i as int].0 as int; let ncw = carry.0;
+        assert(ncw >> 63 <= 1) by (bit_vector);
+        assert(sh < 0x8000_0000_0000_0000u64);
+        assert((sh | c) == sh + c && 2 * (c as int) == ((c >> 63) as int) * 0x1_0000_0000_0000_0000) by (bit_vector) requires sh < 0x8000_0000_0000_0000u64, c == 0 || c == 0x8000_0000_0000_0000u64;
+        lemma_tv_ext(rb, ret.limbs@, (i + 1) as nat, LIMBS as nat);
+        lemma_val_step(ret.limbs@, i as nat); lemma_val_step(self.limbs@, i as nat);
+        lemma_bp_succ(i as nat);
+        let pk = bp(i as nat); let nw = ret.limbs@[i as int].0 as int; let cbit = (c >> 63) as int; let nbit = (ncw >> 63) as int;
+        assert(2 * (nw * pk) + nbit * pk == cbit * (B() * pk) + l * pk) by (nonlinear_arith) requires nw == sh as int + c as int, 2 * (c as int) == cbit * B(), 2 * (sh as int) + nbit == l;
+    }
+//@-
+        }
+//@+
+    proof {
+        let cw = carry.0;
+        assert(cw >> 63 <= 1) by (bit_vector);
+        lemma_bp1();
+    }
+//@-
+        (ret, ConstChoice::from_word_lsb(carry.0 >> Limb::HI_BIT))
+    }
 }
 //@@ end
 
